@@ -7,6 +7,7 @@
 (*    peak (live bytes at the peak), dict (final stream dictionary), bytes  *)
 (*    (final bytes, only where the                                          *)
 (*    classifier needs them), nest (kinds of deep nesting in the input),    *)
+(*    rep (the token or padding repeated >= 10^4 times in the input, or ""),*)
 (*    wzero (xref stream with three zero widths)]                           *)
 (* kind: ok | err (the call returned) | panic | stackoverflow | allocabort  *)
 (*       (an allocation failed and the process aborted) | abort | hang.     *)
@@ -122,11 +123,13 @@ JoinKinds(ks) == FoldLeft(LAMBDA acc, k : IF acc = "" THEN k ELSE acc \o "+" \o 
 
 Where(rec) ==
     IF rec.kind = "panic" THEN rec.loc \o ":" \o rec.mcl
-    ELSE IF rec.kind = "stackoverflow" THEN (IF rec.nest = <<>> THEN "unclassified" ELSE "nest." \o JoinKinds(rec.nest))
+    ELSE IF rec.kind = "stackoverflow" THEN (IF rec.nest # <<>> THEN "nest." \o JoinKinds(rec.nest)
+                                             ELSE IF rec.rep # "" THEN "repeat." \o rec.rep ELSE "unclassified")
     ELSE IF rec.kind = "allocabort" THEN
          (IF Len(rec.refused) <= 6 THEN (IF rec.wzero THEN "exhausted.W000" ELSE "exhausted")       \* many small requests until the cap
           ELSE AskedFor(rec))
-    ELSE IF rec.kind = "hang" THEN (IF rec.wzero THEN "W000" ELSE IF rec.nest # <<>> THEN "nest." \o JoinKinds(rec.nest) ELSE "unclassified")
+    ELSE IF rec.kind = "hang" THEN (IF rec.wzero THEN "W000" ELSE IF rec.nest # <<>> THEN "nest." \o JoinKinds(rec.nest)
+                                    ELSE IF rec.rep # "" THEN "repeat." \o rec.rep ELSE "unclassified")
     ELSE IF rec.kind \in {"ok", "err"} /\ BigRequest(rec) THEN AskedFor(rec)                         \* a refused big request, handled
     ELSE IF rec.kind \in {"ok", "err"} THEN (IF rec.wzero THEN "W000" ELSE AskedFor(rec))             \* memory piled up
     ELSE "unclassified"
